@@ -78,6 +78,7 @@ pub fn normalise_tree(t: &J) -> J {
         J::Object(m) => {
             let mut o = serde_json::Map::new();
             for (k, v) in m {
+                if k == "semi" { continue; } // how a do-block was written (`;` or line breaks) is not part of the tree
                 if k == "o" && v == "notw" { o.insert(k.clone(), json!("not")); } else { o.insert(k.clone(), normalise_tree(v)); }
             }
             J::Object(o)
